@@ -273,7 +273,7 @@ def P(pid):
             ('RF-B bases are selected by attribute position', CL.rule_bases_by_attribute_position, 6),
             ('RF-Y refusals of local helpers are never discarded (CL03)', lambda c: rf_errors.rule_errors_not_discarded(c, scope=rf_errors.SCOPE_CL03, min_sources=0), 1),
             ('RF-B pass-through arguments keep their role (CL03)', lambda c: rf_consts.rule_argument_roles(c, scope=('cl03::',), min_sites=25), 25),
-            ('RF-D blind_sign gated by verify_proof', CL.rule_blind_sign_gated, 3),
+            ('RF-D blind_sign gated by verify_proof', CL.rule_blind_sign_gated, 2),
             ('RF-D every issuing function checks a proof for the commitment it signs', CL.rule_issuing_functions_gated, 3),
             ('RF-Q every issued signature (blind_sign, update_signature) gets an exponent of its own from the search loop', CL.rule_e_loop_exit, 4),
             ('RF-D the blind signature is computed from the commitment, the key, the bases and the revealed attributes', lambda c: rf_frame.rule_result_binding(c, table={k: v for k, v in rf_frame.RESULT_BINDING_CL03.items() if 'blind_sign' in k}), 6),
@@ -446,6 +446,21 @@ for _g, _ps in _R10.items():
         if os.path.exists(os.path.join(os.path.dirname(os.path.dirname(os.path.abspath(__file__))), _f)):
             for _p in _ps:
                 NEGATIVE[_p].append(_f)
+
+# round 12: refactorings of the rest of the code (signing / keys, BBS provers, blind interface, generators and hashing helpers, CL03 provers,
+# issuance, key generation).  Five of the 28 stay stated limits (selftest/negative/limits, DESIGN 8); R12N5-p2 moves a known mask-length defect
+# under another key (a response computed in a shared helper), so it is a negative control for the properties without that finding only.
+_R12 = {'R12N1': ['C01', 'C02', 'C08', 'C09', 'C10', 'C11', 'C12'], 'R12N2': ['C03', 'C04', 'C05', 'C07', 'C08', 'C10'],
+        'R12N3': ['C05', 'C06', 'C07', 'C08', 'C09', 'C11'], 'R12N4': ['C01', 'C02', 'C03', 'C07', 'C08', 'C10', 'C11'],
+        'R12N5': ['C14', 'C15', 'C17', 'C19'], 'R12N6': ['C13', 'C14', 'C15', 'C17', 'C18', 'C19'], 'R12N8': ['C13', 'C17', 'C18']}
+_R12_EXCEPT = {('R12N5', 2): ('C17', 'C19')}
+for _g, _ps in _R12.items():
+    for _j in (1, 2, 3, 4):
+        _f = 'selftest/negative/%s-p%d.patch' % (_g, _j)
+        if os.path.exists(os.path.join(os.path.dirname(os.path.dirname(os.path.abspath(__file__))), _f)):
+            for _p in _ps:
+                if _p not in _R12_EXCEPT.get((_g, _j), ()):
+                    NEGATIVE[_p].append(_f)
 
 # rules that are also evaluated on the other production configurations in the thorough tier (guards against feature-gated divergence)
 def thorough_extra(pid):
